@@ -6,6 +6,7 @@ import (
 	"io"
 	"net"
 	"sync"
+	"sync/atomic"
 	"time"
 
 	"nhooyr.io/websocket"
@@ -93,6 +94,8 @@ type RawPeer struct {
 	done    chan struct{}
 	raw     []byte
 	KeepRaw bool
+	// Paused makes the reader goroutine stop reading (the library's writes then fill the transport window).
+	Paused atomic.Bool
 }
 
 func newRawPeer(end *xport.End, libRole Role, p wire.Params, seed uint64) *RawPeer {
@@ -109,6 +112,9 @@ func (rp *RawPeer) Start() {
 		var parser wire.Parser
 		buf := make([]byte, 32<<10)
 		for {
+			for rp.Paused.Load() {
+				time.Sleep(100 * time.Microsecond)
+			}
 			n, err := rp.End.Read(buf)
 			if n > 0 {
 				rp.mu.Lock()
